@@ -297,6 +297,75 @@ def generate():
     out.append("/-- `forceCloseWithDelay`: the timer callback holds %s -/\ndef forceCloseDelayHold : Hold := .%s\n" % (HOLD_TEXT[h], h))
     notify_hold([sil, hw], "writeCompleteCallback_", "wc", "the write-complete notification (`sendInLoop`, `handleWrite`)")
     notify_hold([sil], "highWaterMarkCallback_", "hwm", "the high-water-mark notification (`sendInLoop`)")
+
+    # how the notification functor takes the user's callback: a copy made when the functor is bound (the callback
+    # installed at scheduling time is the one delivered) or a reference to the member (whatever is installed when the
+    # functor RUNS is called - and an emptied member throws bad_function_call)
+    out.append("/-- how a notification functor takes the user's callback member: `std::bind` copies a plain argument\n"
+               "(`byValue`); `std::ref`/`std::cref`, or a lambda reading the member through `this`, refer to the member itself,\n"
+               "so whatever is installed WHEN THE FUNCTOR RUNS is called (`byRef`) -/\n"
+               "inductive Capture | byValue | byRef\nderiving DecidableEq, Repr\n")
+
+    def peel(x):
+        while True:
+            k = x.get("kind")
+            if k in ("MaterializeTemporaryExpr", "ImplicitCastExpr", "CXXBindTemporaryExpr", "ParenExpr", "ExprWithCleanups",
+                     "CXXFunctionalCastExpr", "CXXStaticCastExpr") and len(kids(x)) == 1:
+                x = kids(x)[0]
+            elif k in ("CXXConstructExpr", "CXXTemporaryObjectExpr") and len(kids(x)) == 1:
+                x = kids(x)[0]     # an explicit copy `Callback(member)`
+            else:
+                return x
+
+    def capture_of(call, member, nm):
+        """byValue / byRef for the functor built in this queueInLoop call"""
+        found = []
+        binds = [n for n in walk(call) if n.get("kind") == "CallExpr" and kids(n)
+                 and any(x.get("kind") == "DeclRefExpr" and x.get("referencedDecl", {}).get("name") == "bind" for x in walk(kids(n)[0]))]
+        for b in binds:
+            for arg in kids(b)[1:]:
+                if not mentions(arg, member):
+                    continue
+                a = peel(arg)
+                if a.get("kind") == "MemberExpr" and a.get("name") == member:
+                    found.append("byValue")
+                elif a.get("kind") == "CallExpr" and kids(a) and any(
+                        x.get("kind") == "DeclRefExpr" and x.get("referencedDecl", {}).get("name") in ("ref", "cref")
+                        for x in walk(kids(a)[0])):
+                    found.append("byRef")
+                elif "reference_wrapper" in a.get("type", {}).get("qualType", ""):
+                    found.append("byRef")
+                elif a.get("kind") == "UnaryOperator" and a.get("opcode") == "&":
+                    found.append("byRef")      # a pointer to the member
+                else:
+                    raise ExtractError("%s: cannot tell how the functor takes %s (bind argument of kind %s)" % (nm, member, a.get("kind")))
+        for lam in [n for n in walk(call) if n.get("kind") == "LambdaExpr"]:
+            body = [k for k in kids(lam) if k.get("kind") == "CompoundStmt"]
+            if body and any(x.get("kind") == "MemberExpr" and x.get("name") == member and kids(x) and peel(kids(x)[0]).get("kind") == "CXXThisExpr"
+                            for x in walk(body[0])):
+                found.append("byRef")          # read through the captured `this` when the functor runs
+            elif mentions(lam, member):
+                inits = [x for x in walk(lam) if x.get("kind") == "VarDecl" and mentions(x, member)]
+                if len(inits) == 1 and "&" not in inits[0].get("type", {}).get("qualType", ""):
+                    found.append("byValue")    # init-capture that copies the member
+                else:
+                    raise ExtractError("%s: cannot tell how the lambda takes %s" % (nm, member))
+        if len(found) != 1:
+            raise ExtractError("%s: expected one place where the functor takes %s, found %d" % (nm, member, len(found)))
+        return found[0]
+
+    def bind_kind(fn, member, nm, doc):
+        calls = [c for c in loop_calls(body_of(fn)) if mentions(c, member)]
+        if len(calls) != 1:
+            raise ExtractError("%s: expected one queued notification of %s, found %d" % (nm, member, len(calls)))
+        cap = capture_of(calls[0], member, nm)
+        out.append("/-- %s takes `%s` %s -/\ndef %s : Capture := .%s\n"
+                   % (doc, member, "by value (a copy made when the functor is bound)" if cap == "byValue"
+                      else "BY REFERENCE (the member is read when the functor runs)", nm, cap))
+
+    bind_kind(sil, "writeCompleteCallback_", "wcBindSend", "`sendInLoop`: the write-complete functor")
+    bind_kind(hw, "writeCompleteCallback_", "wcBindDrain", "`handleWrite`: the write-complete functor")
+    bind_kind(sil, "highWaterMarkCallback_", "hwmBind", "`sendInLoop`: the high-water-mark functor")
     handoff(the_function(docs, "startRead"), "startRead")
     handoff(the_function(docs, "stopRead"), "stopRead")
 
